@@ -233,9 +233,13 @@ class Gen:
             if k == 1:
                 return "!%s.nil?" % v
             return "%s.is_a?(%s)" % (v, cls[self.pick(ts)])
+        strs = self.scalar_vars(S)
+        if strs and r in (6, 9):
+            # string comparison against a literal with a blank in it (C06 widens such literals over several lines)
+            return "%s %s %s" % (self.pick(strs), self.pick(["==", "!="]), self.pick(['"abc def"', '"hello world"', '"a b"']))
         if ints and r < 9:
             return "%s %s %s" % (self.pick(ints), self.pick(["<", ">", "==", "<=", "!="]), self.lit(I))
-        return self.pick(["true", "false", "1 == 1"])
+        return self.pick(["true", "false", "1 == 1", '"x y" == "x y"'])
 
     def body(self, depth, n=None, scope_restore=True):
         saved = dict(self.vars)
